@@ -18,6 +18,7 @@ import (
 	"github.com/EliCDavis/vector/vector3"
 
 	"verif/harness/core"
+	"verif/harness/meshlib"
 )
 
 var f32Ladder = core.Float32Ladder()
@@ -179,6 +180,14 @@ func (k checker) runValues(base int) {
 	if c.Mine(base + len(f32Ladder) + 100) {
 		k.afterFailedWrite()
 	}
+	if c.Mine(base + len(f32Ladder) + 101) {
+		k.afterFailedRead()
+	}
+	if c.Mine(base + len(f32Ladder) + 102) {
+		k.loadAfterReplace()
+	}
+	c.Bound("e.after_failed_read", "stl.ReadMesh of three good files right after every cut / single-byte damage of a 40-record file (400 positions) and three count fields that promise more records than the file holds")
+	c.Bound("e.load_after_replace", "stl.Load of a path whose file was replaced in place (six files, three of equal size; every ordered pair; modification time put back)")
 	c.Bound("e.save_sequences", "every sequence of 1..3 stl.Save calls over meshes of 5, 2 and 0 triangles to one path; the file must equal the in-memory write of the last")
 	c.Bound("d.value_ladder", fmt.Sprintf("%d float32 values, each in every float slot of a record (vertices: whole pipeline; normal: Read->Write) and in every position component of a two-triangle mesh (exact and x(1+2^-25), which must round)", len(f32Ladder)))
 }
@@ -260,4 +269,62 @@ func (k checker) afterFailedWrite() {
 		return
 	}
 	k.c.Eval("files/after-failed-write", "ok")
+}
+
+// ---- a read after a failed read; a load after the file was replaced -------------------------------
+
+func histFile(h, n, salt int) []byte {
+	rs := make([]rec, n)
+	al := recordAlphabet(false)
+	for i := range rs {
+		rs[i] = al[(i*7+salt)%len(al)]
+	}
+	return encodeSTL(headers[h%len(headers)], rs)
+}
+
+func stlDigest(data []byte) (string, error) {
+	m, err := stl.ReadMesh(bytes.NewReader(data))
+	if err != nil || m == nil {
+		return "", err
+	}
+	return fmt.Sprintf("%x", meshlib.QuickHash(*m)), nil
+}
+
+func (k checker) afterFailedRead() {
+	cs := Case{Kind: "after-failed-read"}
+	k.c.Nontrivial("after-failed-read")
+	bad := core.BadInputs(histFile(0, 40, 1), 400)
+	// count fields that promise more records than the file holds, or an absurd number
+	for _, n := range []uint32{41, 100, 4096} {
+		d := histFile(1, 40, 2)
+		d[80], d[81], d[82], d[83] = byte(n), byte(n>>8), byte(n>>16), byte(n>>24)
+		bad = append(bad, d)
+	}
+	for _, good := range [][]byte{histFile(0, 3, 3), histFile(2, 0, 0), histFile(1, 50, 4)} {
+		if why := core.AfterFailedRead(bad, good, stlDigest); why != "" {
+			k.c.Eval("files/after-failed-read", "mismatch")
+			k.fail("stl.ReadMesh", "reading a well-formed STL file yields its n records (also right after an earlier read failed)", "after-failed-read", why, cs)
+			return
+		}
+	}
+	k.c.Eval("files/after-failed-read", "ok")
+}
+
+func (k checker) loadAfterReplace() {
+	cs := Case{Kind: "load-after-replace"}
+	k.c.Nontrivial("load-after-replace")
+	files := [][]byte{histFile(0, 7, 1), histFile(0, 7, 5), histFile(1, 7, 9), histFile(2, 12, 2), histFile(0, 0, 0), histFile(1, 3, 3)}
+	why := core.LoadAfterReplace(".stl", files, func(path string) (string, error) {
+		m, err := stl.Load(path)
+		if err != nil || m == nil {
+			return "", err
+		}
+		return fmt.Sprintf("%x", meshlib.QuickHash(*m)), nil
+	})
+	if why != "" {
+		k.c.Eval("files/load-after-replace", "mismatch")
+		k.fail("stl.Load", "loading a path yields the triangles of the file it holds now", "load-after-replace", why, cs)
+		return
+	}
+	k.c.Eval("files/load-after-replace", "ok")
 }
